@@ -199,8 +199,16 @@ def gen(rng, tier, index):
     if rng.random() < 0.55:
         names = sorted(targets())
         where = rng.choice(names)
+        handover = [n for n in names if n.startswith('handover_')]
+        if handover and followers and not bg and rng.random() < 0.5 and \
+                shape in ('straight', 'generated', 'timed'):
+            # a job that ends by itself with others queued behind it: aim at
+            # the hand-over
+            where = rng.choice(handover)
+            how = rng.choice(['stop_all', 'stop_all', 'stop_current', how])
         timing = {'mode': 'target', 'where': where,
-                  'k': rng.choice([1, 1, 2, 3, 5, 9]),
+                  'k': 1 if where.startswith('handover_')
+                  else rng.choice([1, 1, 2, 3, 5, 9]),
                   'force': rng.choice([0, 3, 30, 300])}
     else:
         timing = {'mode': 'delay',
